@@ -87,6 +87,17 @@ def generate(rng, tier):
             for f3 in (fails if tier == "thorough" else fails[:5]):
                 cases.append(W.mk_case("C04", "hit", "ok", 0, 1, [404, 418, 500], [0], False,
                                        {"e": f1, "x0": f2, "s404": f2, "s418": f2, "s500": f3}))
+    # built-in exception classes (the ones the framework's own `except` clauses name) from endpoints and handlers
+    W.register(W.f_str("x"))            # S78
+    for cls in sorted(W.BUILTIN_EXC):
+        for route in W.ENDPOINT_ROUTES:
+            for eh in ([], [9], [0, 9]):
+                prog = {"e": "exc~%d" % cls}
+                for i in range(len(eh)):
+                    prog["x%d" % i] = "ret~S78"
+                cases.append(W.mk_case("C04", route, "ok", 0, 1, [], eh, False, prog))
+        cases.append(W.mk_case("C04", "hit", "ok", 0, 1, [404], [0], False, {"e": "exc~0", "x0": "exc~%d" % cls}))
+        cases.append(W.mk_case("C04", "nf", "ok", 0, 1, [404], [], False, {"s404": "exc~%d" % cls}))
     n = 6000 if tier == "thorough" else 600
     for _ in range(n):
         cases.append(W.rand_case("C04", rng, 0.8))
@@ -130,7 +141,7 @@ def status_of(tok):
 def oracle(case):
     """reference resolver for the simple scenarios, written from the property text"""
     c = W.parse_case(case)
-    if c["ctor"] != "ok" or c["route"] != "hit" or c["nb"] != 0:
+    if c["ctor"] != "ok" or c["route"] not in W.ENDPOINT_ROUTES or c["nb"] != 0:
         return []
     e = c["prog"].get("e", "ret~N")
     afters = [c["prog"].get("a%d" % j, "same") for j in range(c["na"])]
